@@ -270,6 +270,17 @@ class FeArray(np.ndarray):
         else:
             return self.dot(other)
 
+    def __rmatmul__(self, other) -> FeArrayALike:
+        """``other @ self`` with a plain array on the left: the constant tensor is applied at every element and integration point."""
+        other = np.asarray(other)
+        if other.ndim == 0 or self._ndim == 0:
+            raise ValueError("matmul needs at least vectors on both sides.")
+        _idx = {1: "i", 2: "ij", 4: "ijkl"}
+        idx1 = _idx[other.ndim]
+        idx2 = "".join(chr(ord(v) + other.ndim - 1) for v in _idx[self._ndim])
+        end = (idx1 + idx2).replace(idx1[-1], "")
+        return FeArray.asfearray(np.einsum(f"{idx1},...{idx2}->...{end}", other, self))
+
     @staticmethod
     @lru_cache(maxsize=16)
     def _dot_subscript(ndim1: int, ndim2: int) -> str:
